@@ -1,5 +1,6 @@
 import RegexVerif.Sexp
 import RegexVerif.Model.VM
+import RegexVerif.Model.StackTyping
 
 namespace RegexVerif.Driver
 open RegexVerif Sexp VM Code
@@ -38,8 +39,9 @@ def c10Pairs (e : Sexp) : List (Nat × Nat) :=
     `codes` the code array, `strings` the string table (lists of runes), `setrows` the pairs `(set rune)`
     with `Sets[set].CharIn(rune)`, `lower` the pairs `(rune unicode.ToLower(rune))` that differ, `word` /
     `ecmaword` the word characters among the runes of the text, `attempts` a list of `(pos textstart)`.
-    Answer: `(vm wf potOk (outcome steps maxtrack maxstack textpos hash (first k tuples) (counts) (arrays…))…)`,
-    one entry per attempt; outcome ∈ match | nomatch | fuel | fault-<kind>; capture arrays after `tidy`, cut to
+    Answer: `(vm wf potOk typeReport (outcome steps maxtrack maxstack textpos hash (first k tuples) (counts) (arrays…))…)`,
+    one entry per attempt; `typeReport` = 0 when the program has a grouping-stack typing (`StackTyping.typed`), else
+    1 + the opcode of the first instruction at which the typing fails; outcome ∈ match | nomatch | fuel | fault-<kind>; capture arrays after `tidy`, cut to
     the live entries. -/
 def handleC10 (args : List Sexp) : String :=
   match args with
@@ -80,7 +82,7 @@ def handleC10 (args : List Sexp) : String :=
                     ofInts ((MatchBuilder.arr b c).take (2 * MatchBuilder.cnt b c)))
               else mk "nomatch" (common s.textpos)
         | _ => mk "bad-attempt" []
-      toString (mk "vm" ([ofBool p.wf, ofBool (potOk p)] ++ atts.map one))
+      toString (mk "vm" ([ofBool p.wf, ofBool (potOk p), ofNat (StackTyping.typeReport p)] ++ atts.map one))
     | _, _, _, _, _, _, _, _, _, _, _, _, _, _ => "(bad-op)"
   | _ => "(bad-op)"
 
